@@ -43,20 +43,22 @@ theorem denotation (t : Str) (hs : goStr t = t) (rt : RT) (hp : parseText t = so
 theorem string_literal_eq (s : List Item) (h : loneEsc s = false) : goCombine s = s.map Item.unit :=
   goCombine_eq s h
 
-/-- `reviver_order`: for EVERY reviver function and every parsed value (objects have pairwise distinct
-    property names, as every object has) builtinJSONReviveWalk makes exactly the calls ES5 15.12.2
-    Walk makes — bottom-up, holder/key arguments, property or element deleted on undefined and
-    redefined otherwise — in the same order, with the same result, for the property order given. -/
-theorem reviver_order (f : Reviver) (fuel : Nat) (name : Str) (v : RV) (h : distinctKeys v = true) :
+/-- `reviver_order`: for EVERY reviver — also one that deletes another property of its holder while
+    it runs — and every parsed value, builtinJSONReviveWalk makes exactly the calls ES5 15.12.2 Walk
+    makes: bottom-up, with the keys of an object taken before any is walked (a property deleted
+    meanwhile is still visited, with undefined), holder/key arguments, property or element deleted on
+    undefined and (re)defined otherwise; same order, same result. -/
+theorem reviver_order (f : Reviver) (fuel : Nat) (name : Str) (v : RV) :
     reviveM f fuel name v = Spec.revive f fuel name v :=
-  reviveM_eq f fuel name v h
+  reviveM_eq f fuel name v
 
 /-! ## JSON.stringify: the rule table -/
 
 /-- `stringify_rules`: for EVERY value tree, replacer function, property list, key and stack depth the
     walk of builtinJSONStringifyWalk produces the Go image (`gvOf`) of the tree ES5's Str/JO/JA
     produce: toJSON first, then the replacer function, then unboxing of Number/String/Boolean objects,
-    undefined and functions omitted from objects and null in arrays, non-finite numbers null,
+    accessor properties read through their getter, undefined and functions omitted from objects and
+    null in arrays, non-finite numbers null,
     TypeError exactly on a reference to an enclosing container (cycle), property-list filtering.
     (`gvOf` is where the remaining differences live: keys go through a Go map, strings through
     `goStr`, numbers through `walkNum`; they are the str_* regions.) -/
@@ -88,17 +90,17 @@ example (cv : Conv) : unbox cv (.wrapStr [97] (.ret (.str [98])) .notCallable) =
     (k < depth), in the model and in the spec alike, whatever the replacer does not change -/
 theorem cycle_detect (M : MCtx) (hn : M.repl = none) (fuel depth k : Nat) (key : Str) (h : k < depth) :
     walk M (fuel + 1) depth key (.back k) = .throw := by
-  simp [walk, hn, viaToJSON, unbox, h]
+  simp [walk, hn, viaToJSON, viaGet, unbox, h]
 
 /-- undefined / function: absent at top level and in objects … -/
 theorem omit_undefined_function (M : MCtx) (hn : M.repl = none) (fuel depth : Nat) (key : Str) :
     walk M (fuel + 1) depth key .undef = .absent ∧ walk M (fuel + 1) depth key .func = .absent := by
-  simp [walk, hn, viaToJSON, unbox]
+  simp [walk, hn, viaToJSON, viaGet, unbox]
 
 /-- … and `null` inside arrays -/
 theorem array_undefined_is_null (M : MCtx) (hn : M.repl = none) (fuel depth i : Nat) :
     walkArr M (fuel + 3) depth i (.cons .undef (.cons .func .nil)) = .val (.cons .nil (.cons .nil .nil)) := by
-  simp [walkArr, walk, hn, viaToJSON, unbox]
+  simp [walkArr, walk, hn, viaToJSON, viaGet, unbox]
 
 /-- the gap never exceeds ten characters (ES5 15.12.3 steps 6-7), for every `space` argument -/
 theorem spec_gap_le_10 (sp : Space) : (Spec.gapOf sp).length ≤ 10 := by
@@ -191,8 +193,6 @@ def firstStr : Option JV → Str
 /-- parse_lone_surrogate: a string literal holding the escape for 0xD800 -/
 example : C11.jsonParse [34, 92, 117, 100, 56, 48, 48, 34] ≠ Spec.jsonParse [34, 92, 117, 100, 56, 48, 48, 34] :=
   fun h => absurd (congrArg firstStr h) (by decide +kernel)
-
-example : distinctKeys (.obj (.cons [97] .null (.cons [98] (.arr (.cons (.obj .nil) .nil)) .nil))) = true := by decide
 
 def idNum : Conv := { numStr := fun _ => [48], strNum := fun _ => .nan }
 
